@@ -142,6 +142,7 @@ public:
     int rrNext = 0;
     bool scribbled = false;
     long unfinished = 0;
+    long tasksStarted = 0;              // monotonic: progress indicator for the waiting loops
     std::vector<int> readyVec;          // pending tasks with waiting == 0, ascending id (commutative exclusion is checked at pick time)
     bool hasCommutative = false;
     size_t firstPending = 0;
